@@ -93,7 +93,7 @@ Definition check_static (c : scase) : Z * Z * Z :=
       if negb reg then (-1, 0, 20)%Z else if negb sg then (-1, 1, 21)%Z else (-1, -1, 20)%Z
   | SSrc file =>
       let of_file rows := filter (fun r => match r with
-                                           | RFile f _ | RMsg f _ | REnum f _ | RSvc f _ _ => seqb f file
+                                           | RFile f _ | RMsg f _ | REnum f _ | RSvc f _ _ | RUnsupported f _ _ => seqb f file
                                            | _ => false end) rows in
       (* rows of one file: from its RFile row up to the next RFile row *)
       let fix take (on : bool) (rows : list srow) : list srow :=
@@ -105,7 +105,7 @@ Definition check_static (c : scase) : Z * Z * Z :=
             | _ => if on then r :: take on rest else take on rest
             end
         end in
-      let a := take false source_rows in
+      let a := take false (src_norm source_rows) in
       let b := take false (desc_rows aggregate_opts pulsar_files) in
       ((-1)%Z, first_diff (fun x y : srow => Prelude.eqb x y) a b 0%Z, 30%Z)
   | SDep full =>
